@@ -18,7 +18,7 @@ PREFIXES = ["user.", "user.", "trusted.", "security.", "system.foo_"]
 
 
 def setup(src):
-    e2v.build_driver("xattr", ["theories/Xattr/XattrPack.vo", "theories/Xattr/XattrSort.vo"], ["xattr_model"])
+    e2v.build_driver("xattr", ["theories/Xattr/XattrPack.vo", "theories/Xattr/XattrSort.vo", "theories/Xattr/XattrSet.vo"], ["xattr_model"])
 
 
 def layout(fs, ino):
@@ -62,6 +62,41 @@ def block_keys(fs, ino):
     return out
 
 
+def _vid(fs, val):
+    """identity of a value's bytes (the model compares identities, not bytes)"""
+    if isinstance(val, tuple):
+        try:
+            val = fs.file_data(val[1])[:val[2]]
+        except Exception:
+            val = repr(val).encode()
+    return int.from_bytes(hashlib.sha256(val).digest()[:6], "big")
+
+
+def areas(fs, ino):
+    """the attribute array as the library rebuilds it: (in-inode attrs, block attrs), each 'index:hexname:vid:vlen:ea' in on-disk order"""
+    inode = fs.inode(ino)
+    raw = inode["raw"]
+    ibl, bll = [], []
+    fmt = lambda idx, name, val: "%d:%s:%d:%d:%d" % (idx, name.hex(), _vid(fs, val), val[2] if isinstance(val, tuple) else len(val), 1 if isinstance(val, tuple) else 0)
+    if fs.inode_size > 128:
+        base = 128 + inode["extra_isize"]
+        if base + 4 <= fs.inode_size and struct.unpack_from("<I", raw, base)[0] == 0xEA020000:
+            ibl = [fmt(idx, name, val) for idx, name, val, h, o in extfmt._xattr_entries(raw, base + 4, base + 4, fs.inode_size)]
+    if inode["file_acl"]:
+        bll = [fmt(idx, name, val) for idx, name, val, h, o in extfmt._xattr_entries(fs.block(inode["file_acl"]), 32, 0, fs.bs)]
+    return ibl, bll
+
+
+NAME_INDEX = {"user.": 1, "trusted.": 4, "security.": 6, "system.": 7}
+
+
+def model_key(full):
+    for p, i in NAME_INDEX.items():
+        if full.startswith(p):
+            return "%d:%s" % (i, full[len(p):].encode("latin1").hex())
+    return "0:" + full.encode("latin1").hex()
+
+
 def model(mexe, line):
     return subprocess.run([mexe], input=(line + "\n").encode(), stdout=subprocess.PIPE, timeout=60).stdout.decode().strip()
 
@@ -89,6 +124,7 @@ def one_case(src, mexe, idx, seed, tier):
     names_pool += ["user." + x for x in r.sample(["aaa", "ccc", "bbb", "zzz", "mmm", "aab", "Azz", "a~a"], 5)]
     corr_rows, corr_bad = 0, []
     order_rows, order_bad = 0, []
+    set_rows, set_bad = 0, []
     bkeys = {t: [] for t in targets}
     nops = r.randint(8, 30 if tier == "quick" else 60)
     for k in range(nops):
@@ -120,6 +156,13 @@ def one_case(src, mexe, idx, seed, tier):
                 problems.append("op %d: ea_get %s %s returns %s bytes, the attribute has %d" % (k, t, nm, None if got is None else len(got), len(before[nm])))
             ops.append("ea_get %s %s" % (t, nm))
             continue
+        try:
+            ino_t = {e[0]: e[1] for e in fs.dir_entries(2)}[t.encode()]
+            st_before = areas(fs, ino_t)
+            ino_b = fs.inode(ino_t)
+            extra_b = ino_b["extra_isize"] or struct.unpack_from("<H", fs.d, fs.off + 1024 + 0x15E)[0] or 4
+        except Exception:
+            st_before = None
         rc, out = e2v.sh([T("debugfs/debugfs"), "-w", "-R", cmd, img], env=env, timeout=60)
         err = "\n".join(l for l in out.split("\n")[1:] if l.strip())
         ops.append(cmd.replace(vfile, "<%d bytes>" % (len(val) if cmd.startswith("ea_set") else 0)))
@@ -161,6 +204,22 @@ def one_case(src, mexe, idx, seed, tier):
             if not m or m.group(1) != "1" or [(p[0], p[1]) for p in pred] != [(o_[0], o_[1]) for o_ in obs]:
                 corr_bad.append({"area": area, "storage": size, "entries(name len,value len,ea_inode)": [e[2:] for e in ents],
                                  "observed(entry off,value off)": [(o_[0], o_[1]) for o_ in obs], "model": mo})
+        # the handle state machine: which area every attribute is in, and in which order
+        if st_before is not None and "system.data" not in xattrs(fs, ino):
+            icap = (isz - 128 - extra_b - 8) if isz > 128 else 0
+            has_ea = 1 if "ea_inode" in " ".join(opts) else 0
+            opline = ("S %s %d %d" % (model_key(nm), _vid(fs, val), len(val))) if cmd.startswith("ea_set") else "R %s" % model_key(nm)
+            line = "X %d %d %d %d | %s | %s | %s" % (max(icap, 0), bs - 36, has_ea, bs - 56, " ".join(st_before[0]), " ".join(st_before[1]), opline)
+            mo = model(mexe, line)
+            st_after = areas(fs, ino)
+            set_rows += 1
+            if mo == "NOSPACE":
+                if not (err and st_after == st_before):
+                    set_bad.append({"op": ops[-1], "before": st_before, "after": st_after, "model": "EXT2_ET_EA_NO_SPACE, nothing changes", "tool output": err[:120]})
+            else:
+                mm = [x.strip().split() for x in mo.split("|")[1:]] if mo.startswith("OK") else None
+                if mm is None or len(mm) != 2 or (mm[0], mm[1]) != (st_after[0], st_after[1]):
+                    set_bad.append({"op": ops[-1], "before (in-inode, block)": st_before, "after": st_after, "model": mo, "tool output": err[:120]})
         # order of the block entries vs the sorted-insertion model
         keys = block_keys(fs, ino)
         order_rows += 1
@@ -178,7 +237,7 @@ def one_case(src, mexe, idx, seed, tier):
                 if pred != keys:
                     order_bad.append({"op": ops[-1], "block entries before": bkeys[t], "after": keys, "model insert_key": pred})
         bkeys[t] = keys
-        if problems or order_bad:
+        if problems or order_bad or set_bad:
             break
     recipe = {"config": name, "mke2fs": opts, "ops": ops, "case_index": idx}
     rc, out = e2v.sh([T("e2fsck/e2fsck"), "-fn", img], env=env, timeout=300)
@@ -190,7 +249,7 @@ def one_case(src, mexe, idx, seed, tier):
     for p in (img, vfile):
         if os.path.exists(p):
             os.unlink(p)
-    return recipe, problems, {"rows": corr_rows, "corr_bad": corr_bad, "nops": len(ops), "order_rows": order_rows, "order_bad": order_bad}
+    return recipe, problems, {"rows": corr_rows, "corr_bad": corr_bad, "nops": len(ops), "order_rows": order_rows, "order_bad": order_bad, "set_rows": set_rows, "set_bad": set_bad}
 
 
 def run(res, replay=None):
@@ -199,7 +258,7 @@ def run(res, replay=None):
     src = e2v.ensure_build()
     pr = e2v.coq_property("C15")
     res.add_proof(pr)
-    mexe = e2v.build_driver("xattr", ["theories/Xattr/XattrPack.vo", "theories/Xattr/XattrSort.vo"], ["xattr_model"])
+    mexe = e2v.build_driver("xattr", ["theories/Xattr/XattrPack.vo", "theories/Xattr/XattrSort.vo", "theories/Xattr/XattrSet.vo"], ["xattr_model"])
     res.cov["trusted_base"] = e2v.TRUSTED_COMMON + [
         "lib/extfmt.py xattrs(): the check's own decoder of in-inode and block attribute storage (and EA inodes)",
         "debugfs ea_set/ea_rm/ea_get are the front end to ext2fs_xattr_set/remove/get; the reference is a Python dict per file",
@@ -210,8 +269,8 @@ def run(res, replay=None):
     idxs = [json.load(open(replay))["recipe"]["case_index"]] if replay else list(range(n))
     with concurrent.futures.ThreadPoolExecutor(12) as ex:
         outs = list(ex.map(lambda i: one_case(src, mexe, i, seed, tier), idxs))
-    bad, cbad, obad = [], [], []
-    rows = ops = orows = 0
+    bad, cbad, obad, sbad = [], [], [], []
+    rows = ops = orows = srows = 0
     for recipe, problems, st in outs:
         res.case(json.dumps(recipe), st.get("nops", 0) >= 3)
         rows += st.get("rows", 0)
@@ -222,6 +281,9 @@ def run(res, replay=None):
             bad.append((recipe, problems))
         for c in st.get("corr_bad", [])[:1]:
             cbad.append((recipe, c))
+        srows += st.get("set_rows", 0)
+        for c in st.get("set_bad", [])[:1]:
+            sbad.append((recipe, c))
         orows += st.get("order_rows", 0)
         for c in st.get("order_bad", [])[:1]:
             obad.append((recipe, c))
@@ -235,6 +297,10 @@ def run(res, replay=None):
     res.cov["correspondence"]["block_order_compared"] = "the entries of the attribute block after every operation: extracted sortedb must hold, the extracted kernel-style sorted_lookup must find every stored name, and when exactly one name joined the block the new order equals the extracted insert_key"
     res.add_obligation("packing model = on-disk layout after every operation", not cbad)
     res.add_obligation("attribute block sorted as the insertion model says after every operation", not obad)
+    res.cov["correspondence"]["handle_steps"] = srows
+    res.cov["correspondence"]["handle_mismatches"] = len(sbad)
+    res.cov["correspondence"]["handle_compared"] = "for every ea_set/ea_rm: the attribute array decoded before the operation, pushed through the extracted xset/xremove, must equal the array decoded afterwards (which attributes are in the inode, which in the block, their order, value identity, value length, EA-inode flag), and the model refuses (EXT2_ET_EA_NO_SPACE) exactly when the tool does"
+    res.add_obligation("handle model (xset/xremove) = decoded attribute array after every operation", not sbad)
 
     def sig(recipe, problems):
         if all("(only i_blocks of inodes owning EA inodes)" in p for p in problems) and "ea_inode" in recipe["config"]:
@@ -246,9 +312,12 @@ def run(res, replay=None):
     for recipe, c in obad[:2]:
         res.violation("oracle", {"recipe": recipe, "block_order": c, "problems": ["the attribute block is not in (index, name length, name) order: a reader using the sorted lookup (the kernel) does not find attributes that were set"]},
                       signature="c15:order:" + hashlib.sha256(json.dumps(recipe.get("ops", [])).encode()).hexdigest()[:12])
+    for recipe, c in sbad[:2]:
+        res.violation("correspondence", {"recipe": recipe, "handle_step": c, "note": "the placement decision of ext2fs_xattr_set / xattr_array_update differs from the model (theorems xset_refines_map, xset_keeps_invariant are about the model)"},
+                      has_input=True, signature="c15:set:" + hashlib.sha256(json.dumps(recipe.get("ops", [])).encode()).hexdigest()[:12])
     for recipe, c in cbad[:1]:
         if not bad:
             res.violation("correspondence", {"recipe": recipe, "layout": c, "note": "the packing of the attribute area differs from the model; the decoded attributes still match the reference"}, has_input=False)
-    if not pr["ok"] and not bad and not cbad and not obad:
+    if not pr["ok"] and not bad and not cbad and not obad and not sbad:
         res.violation("proof", {"theorem_file": "coq/theories/Properties_C15.v", "failed_at": pr["failed_at"],
                                 "forbidden": pr["forbidden"], "log_tail": pr["log_tail"][-1500:]}, has_input=False)
